@@ -59,6 +59,9 @@ def fault_vectors(tier, TT, TL):
     for d in ([3, 6, 6], [3, 8, 8], [3, 10, 10], [2, 8, 18], [2, 15, 15], [2, 13, 18], [2, 18, 18], [2, 8, 8], [2, 7, 8], [2, 8, 9]):
         vs.append(dict(sink="stl", mode="none", limit=0, items=0, batch=1, real="mcu:%d" % max(d), dims=d))
     vs.append(dict(sink="3mf", mode="none", limit=0, items=0, batch=1, real="mcu:8", dims=[3, 8, 8]))
+    # a dense 16^3 lattice of balls through the octree renderer at cell counts just below powers of two
+    for cells in (31, 63):
+        vs.append(dict(sink="stl", mode="none", limit=0, items=0, batch=1, real="mcol:%d" % cells, dims=[16, 16, 16]))
     for real, sink in (("mco:20", "stl"), ("msu:30", "svg"), ("msq:40", "dxf")):
         for mode in ("none", "nodir", "devfull"):
             vs.append(dict(sink=sink, mode=mode, limit=0, items=0, batch=1, real=real, dims=[3, 4, 5]))
